@@ -48,6 +48,10 @@ VARIANTS = {
     # a shipped adsorbate whose STORED molar mass (34.03) disagrees with its backend (52.02): every route must use one source
     'D': dict(ads='difluoromethane', T=250.0, ads_props=None, mat=dict(density=2.0, molar_mass=100.0), known_c='backend',
               inits=[INIT_A, ('absolute', 'kPa', 'mass', 'mg', 'mass', 'g', 'K'), ('relative', None, 'volume_gas', 'cm3', 'volume', 'cm3', 'K')]),
+    # a user-defined vapour without backend whose saturation pressure is a STORED property (in Pa): relative pressure is reachable from every unit
+    'F': dict(ads='c02-ads-stored-p0', T=300.0, ads_props={'molar_mass': 30.0, 'saturation_pressure': 54321.0}, mat=dict(density=2.0, molar_mass=100.0),
+              known_c={'M': 30.0, 'ps': 54321.0}, inits=[INIT_A, ('absolute', 'kPa', 'molar', 'mmol', 'mass', 'g', 'K'), ('relative', None, 'mass', 'mg', 'mass', 'g', 'K'),
+                                                         ('relative%', None, 'molar', 'mmol', 'mass', 'g', '°C')]),
     # super-critical adsorbate with a backend: relative pressure and condensed-phase volumes are impossible
     'E': dict(ads='N2', T=300.0, ads_props=None, mat=dict(density=2.0, molar_mass=100.0), known_c='supercritical',
               inits=[INIT_A, ('absolute', 'bar', 'percent', None, 'mass', 'g', '°C')]),
@@ -586,7 +590,7 @@ def run(ctx):
     outcomes = collections.Counter()
     depth = 0
     per_variant = {}
-    for vn in (['A', 'B', 'C', 'D', 'E']):
+    for vn in (['A', 'B', 'C', 'D', 'E', 'F']):
         # variants other than A always use the quotient alphabet (their reachable graphs are small)
         sn = space_name if vn == 'A' else 'quot'
         setup_variant(vn)
